@@ -483,3 +483,49 @@ func vh_C08_L6_closure_error_replaces_deadline_error() {
 	vassert(s.readErr != nil, "re-arming or clearing the deadline afterwards does not wipe the closure error")
 	vcover("end")
 }
+
+// C08.L7: the peer's SHUTDOWN is an acknowledgement like any other. The side that receives
+// the SHUTDOWN has two messages of a partially reliable stream (retransmission limit 0)
+// outstanding: the first arrived but its SACK was lost, the second was lost and has been
+// given up. The cumulative ack for the first reaches it only inside the SHUTDOWN chunk: the
+// sender-side bookkeeping for abandoned data advances all the same, the peer is told to skip
+// the second message, and the shutdown completes on both sides.
+func vh_C08_L7_shutdown_chunk_acknowledges_partially_reliable_data() {
+	il := vPick(2) == 1
+	a, b := vPair(vAssocOpts{interleaving: il, pickTSN: true, mtu: 36})
+	a.useForwardTSN, a.useIForwardTSN = !il, il
+	b.useForwardTSN, b.useIForwardTSN = !il, il
+	s, err := b.OpenStream(1, PayloadTypeWebRTCBinary)
+	vassert(err == nil, "open stream")
+	s.SetReliabilityParams(vPick(2) == 1, ReliabilityTypeRexmit, 0)
+	_, w1 := s.WriteSCTP(nondetBytes(1), PayloadTypeWebRTCBinary)
+	_, w2 := s.WriteSCTP(nondetBytes(1), PayloadTypeWebRTCBinary)
+	vassert(w1 == nil && w2 == nil, "writes accepted")
+	pkts := vWriterWake(b)
+	vassert(len(pkts) == 2, "one message per packet")
+	vInbound(a, pkts[0]) // the second packet is lost
+	sackLost := vPick(2) == 1
+	vFireAck(a)
+	for _, raw := range vWriterWake(a) {
+		if !sackLost {
+			vInbound(b, raw)
+		}
+	}
+	_ = a.Shutdown(vNewClosedCtx())
+	net := &vNet{a: a, b: b, dropAt: -1, dupAt: -1}
+	for round := 0; round < 20; round++ {
+		c := net.wire(a, b)
+		vFireAck(b)
+		c += net.wire(b, a)
+		vFireAck(a)
+		if c == 0 {
+			if vIsShut(a) && vIsShut(b) {
+				break
+			}
+			vFireAll(a)
+			vFireAll(b)
+		}
+	}
+	vassert(vIsShut(a) && vIsShut(b), "both sides end closed: data given up on does not keep the shutdown from completing")
+	vcover("end")
+}
